@@ -12,6 +12,7 @@ import pandas as pd
 
 import gen
 import streams_common as sc
+from props import e2e
 import sut
 from engine import Outcome, jsonable
 
@@ -91,7 +92,10 @@ def run(out: Outcome, drv, frontends=None):
                 "just before and just after a row; 1..3 tests per stream incl. neighbour/time/position dependent ones and a probe that "
                 "records its arguments) run through every front end, every third config also as ONE Config object run on the table and then on "
                 "a second table with an axis dropped; compared as multisets of canonical ContextResult records against "
-                "direct calls on the rows selected by IoosQc.specMask; non-trivial = a window that excludes at least one row")
+                "direct calls on the rows selected by IoosQc.specMask; non-trivial = a window that excludes at least one row; "
+                "PLUS end-to-end: typed configurations of the real tests (gross, valid, spike, roc, flat line, attenuated(range), density, pressure, "
+                "climatology, location, speed) run through every front end and collected (list + dict form), compared with the single model value "
+                "IoosQc.systemRun (grouped contexts -> window rows -> Call.run binding -> test MODEL -> collection)")
     rng = gen.rng_for(out.seed, "C05")
     for it in range(n):
         if tab_ok := True:
@@ -137,6 +141,12 @@ def run(out: Outcome, drv, frontends=None):
                               {"case": jsonable(case), "observed_only": diff_o, "expected_only": diff_e,
                                "probe_observed": obs_probe[:3], "probe_expected": exp_probe[:3]},
                               known_id=classify(fe, tab, ctxs, masks, None))
+    run_e2e(out, drv)
+
+
+def run_e2e(out, drv):
+    """Complete real runs (Config -> front end -> collect_results) against the one model value IoosQc.systemRun."""
+    e2e.run(out, drv, n=40 if out.tier == "quick" else 600, maxn=9 if out.tier == "quick" else 24)
 
 
 def run_qcconfig(out, drv, rng, maxn):
